@@ -505,3 +505,36 @@ Lemma no_stop_two_sources :
   let s := kupdates false (kinit 100 10000000) [(100, 100000000)] in
   firing s = 2 /\ fires_in 1000000000 s = 112 /\ 1000000000 / k_interval s + 1 = 11.
 Proof. vm_compute. repeat split; reflexivity. Qed.
+
+(* ---- Overloader.Update on a rate limiter ---- *)
+Lemma once_of_bounds m iv o : 0 < m -> once_of m iv = Some o -> 0 < o <= m.
+Proof.
+  intros Hm. unfold once_of. destruct (iv <=? 0) eqn:E1; [discriminate|]. apply Z.leb_gt in E1.
+  destruct (1000000000 / iv =? 0) eqn:E2; [discriminate|]. apply Z.eqb_neq in E2.
+  assert (Hd : 0 < 1000000000 / iv).
+  { pose proof (Z.div_pos 1000000000 iv). lia. }
+  intros H. inversion H; subst; clear H.
+  destruct (m / (1000000000 / iv) =? 0) eqn:E3; [lia|]. apply Z.eqb_neq in E3.
+  pose proof (Z.div_pos m (1000000000 / iv)).
+  assert (m / (1000000000 / iv) <= m) by (apply Z.div_le_upper_bound; nia).
+  lia.
+Qed.
+
+(* an Update never refills: the bucket of a limiter that existed before keeps exactly its
+   tokens; only a limiter that did not exist is created full; the refill amount stays within
+   1..capacity (what C18_bucket_bound's QSetOnce event requires) *)
+Lemma ov_update_no_refill cur m iv b' : ov_update cur m iv = Some (Some b') ->
+  b_limit b' = m /\ 0 < b_once b' <= m /\
+  match cur with
+  | Some b => b_tokens b' = b_tokens b
+  | None => b_tokens b' = m
+  end.
+Proof.
+  unfold ov_update. destruct (m <=? 0) eqn:Em; [discriminate|]. apply Z.leb_gt in Em.
+  destruct (once_of m iv) as [o|] eqn:Eo; [|discriminate].
+  pose proof (once_of_bounds m iv o Em Eo) as Hb.
+  intros H. inversion H; subst; clear H. destruct cur; cbn; repeat split; lia.
+Qed.
+
+Lemma ov_update_removed cur m iv : m <= 0 -> ov_update cur m iv = Some None.
+Proof. intros H. unfold ov_update. apply Z.leb_le in H. rewrite H. reflexivity. Qed.
